@@ -331,4 +331,7 @@ def voidLines (marks : List Bool) (lines : List Line) : List Line :=
       if l.tokens.all (fun t => marks.getD t false) then { l with ltype := .lVoided, tokens := [] } else l
   else lines
 
+/-- the gap before a token is empty: no line break and no space -/
+def gapEmpty (t : FTok) : Bool := t.fmt.nl == 0 && t.fmt.sp == 0
+
 end Pasfmt
